@@ -600,9 +600,9 @@ def judge(cfg, specs, op, before, after):
         if any(pathsafety.unsafe(b"/".join(tp.split(b"/")[:i]), ntfs, hfs) for i in range(1, tp.count(b"/") + 1)):
             continue  # reported at the shallowest unsafe component
         return "unsafe-name(%s)" % why, "%r exists in the work tree after the operation" % tp, rel
-    cur = op[1]
-    if cur is not None:
-        bcontent = {(e[0], e[3]) for e in before if e[1] == "f"}
+    # entries of the tree being materialised (an operation without a tree argument materialises one of the earlier ones)
+    bcontent = {(e[0], e[3]) for e in before if e[1] == "f"}
+    for cur in ([op[1]] if op[1] is not None else _dedupe(specs)):
         for p, k, depth in leaves(cur):
             why = pathsafety.unsafe(p, ntfs, hfs)
             if why is None:
@@ -1057,14 +1057,15 @@ def run(ctx):
     entryA = ["checkout", "reset_hard", "stash_apply", "patch_add", "am"] if q else \
         ["checkout", "checkout_force", "switch", "reset_hard", "stash_apply", "patch_add", "patch_del", "am"]
     unbornA = ["checkout"] if q else ["checkout", "reset_hard"]
-    cfgsA = ["default", "ntfs-off+hfs-on"] if q else list(CONFIGS)
+    cfgsA = ["default", "ntfs-off", "ntfs-off+hfs-on"] if q else list(CONFIGS)
+    famNames2 = _dedupe(fam_single(LEAF_KINDS) + fam_nested(NAMES, NAMES, ["f", "G"]))  # quick, non-default configurations
     base = (("reset_soft", ()),)  # HEAD = a commit of the empty tree, nothing checked out
     # clone: fresh directory, default configuration (a clone cannot carry a repository-local configuration)
     stats.append(bfs(ctx, "A-clone", "default", None, None, None, 1, first_ops=single_step_ops(famA, ["clone"]), with_wt=False))
     planA = []
     for cfg in cfgsA:
         full = cfg == "default"  # the other configurations: fewer entry points (quick: and only the names matrix)
-        trees = famA if (full or not q) else famNames
+        trees = famA if (full or not q) else famNames2
         eps = entryA if full else (["checkout", "stash_apply", "patch_add"] if q else ["checkout", "reset_hard", "stash_apply", "patch_add", "am"])
         planA.append({"config": cfg, "trees": len(trees), "entry_points": eps, "unborn": unbornA if full else [], "reset_index": True})
         stats.append(bfs(ctx, "A-entry-points", cfg, None, None, None, 1, first_ops=single_step_ops(trees, eps), prefix=base))
